@@ -209,7 +209,7 @@ def tables(ctx, obs, rule='TAB'):
     for q in POOLS + ['rdm.compare.compare']:
         f = prog.func(q)
         from ..rules.common import string_dispatch
-        form, arms = string_dispatch(f, 'method')
+        form, arms = string_dispatch(f, 'method', prog.module_of(f).tree)
         keys = {k: v[0] for k, v in arms.items()}
         sets[q] = keys
         forms = locals().setdefault('_forms', {})
